@@ -117,7 +117,7 @@ func driveSec1(c *ctx) {
 		{"NewFromBytes", func(_ *secp256k1.Point, b []byte) (*secp256k1.Point, error) { return secp256k1.NewPointFromBytes(b) }},
 	}
 	state := func(p *secp256k1.Point) string {
-		if _, _, _, valid := p.VerifCoords(); !valid {
+		if !ptIsValid(p) {
 			return "uninit"
 		}
 		return hx(p.UncompressedBytes())
